@@ -49,7 +49,7 @@ inductive Domain where
   | always
   | chain
   | regions (rs : List (Int × Int))
-  deriving Repr, Inhabited
+  deriving DecidableEq, Repr, Inhabited
 
 structure Params where
   names : List String
@@ -316,7 +316,7 @@ structure Proc where
   bondTypeVar : String
   resMinDistVar : String
   dom : Domain
-  deriving Inhabited
+  deriving DecidableEq, Inhabited
 
 /-- what `run_molecule` hands to `apply_rubber_band` -/
 structure Options where
